@@ -20,7 +20,21 @@
       bodies in that order (induction over the list, with the stored blocks — which keep the
       bodies verbatim with `?` — as part of the invariant);
     * `sim_observation`: `Sim` states with equal markers print the same observation record;
-    * `subst_matches`: what '?' expands to.
+    * `subst_matches`: what '?' expands to;
+    * `apply_closes_steps`, `schedule_steps_closed`: the end-of-step closing (deferred WPIMULT
+      applied, `checkIfAllConnectionsIsShut`) is an invariant of every snapshot: after `applyAction`
+      at step n every snapshot from n on has no pending factor and every well all of whose
+      connections are shut is SHUT — for ANY body (COMPDAT-only bodies included; the closing does
+      not depend on a handler having reported an affected well);
+    * `apply_eq_inline_closed_step`: bodies WITH connection keywords (COMPDAT, WELOPEN on
+      connections, WPIMULT in both forms, several all-default WPIMULT records hitting the same
+      well): when the keywords of block n themselves left the step closed (`Closed s1`: no pending
+      all-default WPIMULT record, no unshut well with all connections shut), the per-step
+      exception is void and apply = inline holds with the same conclusion as `apply_eq_inline`;
+    * `apply_eq_inline_closed_step_events`: … and also in the WELL_STATUS_CHANGE events
+      (`SimE` = `Sim` + the same status-change events): at state n and at every later state — e.g. a
+      well the body plugs gets its status-change event at step n on both sides and none at n+1;
+      `full_observation`: `SimE` states with equal markers print the same full record.
 
   `Sim a b` = equal property channel, equal connection channel, equal status of every well.  (The
   status channel is an association list; the two sides may list its keys in a different order,
@@ -31,6 +45,8 @@
   resolves it once per application); decreasing steps.
 -/
 import OpmVerif.Proofs.SchedCommute
+import OpmVerif.Proofs.SchedClosed
+import OpmVerif.Proofs.SchedEvents
 import OpmVerif.Proofs.SchedObs
 
 namespace OpmVerif.Props.C04
@@ -59,44 +75,69 @@ theorem apply_eq_inline (k : Consts) (a : List (List CKw)) (blk : List CKw) (c :
     (sa : List State) (s1 : State) (tail0 : List State) (body : List CKw) (W : List String)
     (bs' : List (List CKw)) (ss' : List State)
     (ha : runFrom k (init k) a = .ok sa)
-    (h1 : runKws k none (createNext (sa.getLastD (init k))) blk = .ok s1)
+    (h1 : runKws k none (beginBlock (sa.getLastD (init k)) blk) blk = .ok s1)
     (hp : body.all plainKw = true) (hnc : body.all noConnKw = true)
     (happ : applyAction k (a ++ blk :: c) (sa ++ closeBlock s1 :: tail0) a.length body W = .ok (bs', ss')) :
     ∃ sn' tail x tail2, ss' = sa ++ sn' :: tail ∧
       run k (inlineAt (a ++ blk :: c) a.length (substBody (sortW (names s1.p.wells) W) body)) = .ok (sa ++ x :: tail2) ∧
-      Sim sn' x ∧ All2 Sim tail tail2 ∧ x.mark = [] ∧ (∀ s ∈ tail, s.mark = []) ∧ (∀ s ∈ tail2, s.mark = []) := by
-  have e : inlineAt (a ++ blk :: c) a.length (substBody (sortW (names s1.p.wells) W) body) =
-      a ++ (blk ++ substBody (sortW (names s1.p.wells) W) body) :: c := by
-    simp [inlineAt, appendAt, modify_at_length]
-  rw [e]
-  have hlen : sa.length = a.length := runFrom_length ha
-  obtain ⟨sn', tail, x, tail2, hss, hrun, hsx, hall⟩ :=
-    applyAction_sim_inline k a blk c (a ++ blk :: c) sa sa s1 (closeBlock s1) tail0 body W bs' ss' ha h1 hlen
-      (Sim.refl _) (by simp) hp hnc happ
-  refine ⟨sn', tail, x, tail2, hss, hrun, hsx, hall, ?_, ?_, ?_⟩
-  · have := runFrom_marks k _ _ _ hrun x (by simp)
-    exact this
-  · -- the tail of the apply side is a `runFrom` result
-    unfold applyAction at happ
-    have hidx : (sa ++ closeBlock s1 :: tail0)[a.length]? = some (closeBlock s1) := by rw [← hlen]; simp
-    rw [hidx] at happ; simp only [] at happ
-    cases hA : applyAtState k (closeBlock s1) body W with
-    | error e => rw [hA] at happ; cases happ
-    | ok q =>
-      rw [hA] at happ; simp only [] at happ
-      cases hT : runFrom k q ((a ++ blk :: c).drop (a.length + 1)) with
-      | error e => rw [hT] at happ; cases happ
-      | ok tl =>
-        rw [hT] at happ
-        simp only [Except.ok.injEq, Prod.mk.injEq] at happ
-        have htake : (sa ++ closeBlock s1 :: tail0).take a.length = sa := by rw [← hlen]; simp
-        rw [htake, hss] at happ
-        have := List.append_cancel_left happ.2
-        simp only [List.cons.injEq] at this
-        rw [← this.2]
-        exact runFrom_marks k _ _ _ hT
-  · intro s hs
-    exact runFrom_marks k _ _ _ hrun s (by simp [hs])
+      Sim sn' x ∧ All2 Sim tail tail2 ∧ x.mark = [] ∧ (∀ s ∈ tail, s.mark = []) ∧ (∀ s ∈ tail2, s.mark = []) :=
+  applyAction_eq_inline_gen k a blk c sa s1 tail0 body W bs' ss' ha h1 hp
+    (bodyTransfer_noConn k _ s1 _ (Sim.refl _) (substBody_noConn _ body hnc)) happ
+
+/-- The same for bodies WITH connection keywords — COMPDAT, WELOPEN on connections, WPIMULT with
+and without connection items, in any number and overlap — at a step whose own keywords left it
+closed (`Closed s1`: after the keywords of block n no all-default WPIMULT factor is pending and no
+well with all connections shut is still unshut).  Closing step n then changed nothing, the
+property's per-step exception is void, and the conclusion is that of `apply_eq_inline`: state n
+agrees in everything but the marker — in particular a well whose connections the body has all
+shut is SHUT on both sides — and every later state agrees. -/
+theorem apply_eq_inline_closed_step (k : Consts) (a : List (List CKw)) (blk : List CKw) (c : List (List CKw))
+    (sa : List State) (s1 : State) (tail0 : List State) (body : List CKw) (W : List String)
+    (bs' : List (List CKw)) (ss' : List State)
+    (ha : runFrom k (init k) a = .ok sa)
+    (h1 : runKws k none (beginBlock (sa.getLastD (init k)) blk) blk = .ok s1)
+    (hp : body.all plainKw = true) (hcl : Closed s1)
+    (happ : applyAction k (a ++ blk :: c) (sa ++ closeBlock s1 :: tail0) a.length body W = .ok (bs', ss')) :
+    ∃ sn' tail x tail2, ss' = sa ++ sn' :: tail ∧
+      run k (inlineAt (a ++ blk :: c) a.length (substBody (sortW (names s1.p.wells) W) body)) = .ok (sa ++ x :: tail2) ∧
+      Sim sn' x ∧ All2 Sim tail tail2 ∧ x.mark = [] ∧ (∀ s ∈ tail, s.mark = []) ∧ (∀ s ∈ tail2, s.mark = []) :=
+  applyAction_eq_inline_gen k a blk c sa s1 tail0 body W bs' ss' ha h1 hp
+    (bodyTransfer_closed k _ s1 _ (Sim.refl _) hcl) happ
+
+/-- … and the WELL_STATUS_CHANGE events agree as well (`SimE`): the events of state n (those of
+block n, of the body's handlers and of the automatic shut-in after the body) and of every later
+state are the same on the apply side and in the schedule of the inlined deck. -/
+theorem apply_eq_inline_closed_step_events (k : Consts) (a : List (List CKw)) (blk : List CKw) (c : List (List CKw))
+    (sa : List State) (s1 : State) (tail0 : List State) (body : List CKw) (W : List String)
+    (bs' : List (List CKw)) (ss' : List State)
+    (ha : runFrom k (init k) a = .ok sa)
+    (h1 : runKws k none (beginBlock (sa.getLastD (init k)) blk) blk = .ok s1)
+    (hp : body.all plainKw = true) (hcl : Closed s1)
+    (happ : applyAction k (a ++ blk :: c) (sa ++ closeBlock s1 :: tail0) a.length body W = .ok (bs', ss')) :
+    ∃ sn' tail x tail2, ss' = sa ++ sn' :: tail ∧
+      run k (inlineAt (a ++ blk :: c) a.length (substBody (sortW (names s1.p.wells) W) body)) = .ok (sa ++ x :: tail2) ∧
+      SimE sn' x ∧ All2 SimE tail tail2 :=
+  applyAction_simE_inline_closed k a blk c sa s1 tail0 body W bs' ss' ha h1 hp hcl happ
+
+/-- `SimE` states with equal markers print the same full observation record (`showFull`: the
+record of `sim_observation` plus the wells with a status-change event) — what the correspondence
+compares. -/
+theorem full_observation (a b : State) (h : SimE a b) (hm : a.mark = b.mark) : showFull a = showFull b :=
+  showFull_congr a b h hm
+
+/-- The end-of-step closing is part of what `applyAction` does, unconditionally: after an
+application at step n every snapshot from n on is `Closed` — no deferred WPIMULT factor pending,
+every well all of whose connections are shut has status SHUT — for ANY body and matching set (a
+body consisting of COMPDAT records only, which reports no affected well, included). -/
+theorem apply_closes_steps (k : Consts) (bs : List (List CKw)) (ss : List State) (n : Nat) (body : List CKw)
+    (W : List String) (bs' : List (List CKw)) (ss' : List State)
+    (h : applyAction k bs ss n body W = .ok (bs', ss')) : ∀ x ∈ ss'.drop n, Closed x :=
+  applyAction_closed k bs ss n body W bs' ss' h
+
+/-- … as is every snapshot of the schedule itself. -/
+theorem schedule_steps_closed (k : Consts) (bs : List (List CKw)) (ss : List State) (h : run k bs = .ok ss) :
+    ∀ x ∈ ss, Closed x :=
+  runFrom_closed k bs (init k) ss h
 
 /-- State-level core: re-running the handlers on the closed snapshot (or any state `Sim` to it)
 and closing it again equals — up to the marker — running block n with the body appended. -/
@@ -172,6 +213,52 @@ example : ((applySeq k0 blocks0 apps0).toOption.map fun r => r.2.map obs) =
 example : ((inlineSeq k0 blocks0 apps0).toOption.bind fun b => (run k0 b).toOption.map fun ss => ss.map obs) =
     some [[("P1", .open_, "1", 1), ("P2", .open_, "1", 1)], [("P1", .shut, "e", 7), ("P2", .open_, "e", 7)], [("P1", .shut, "e", 7), ("P2", .open_, "e", 7)]] := by
   decide +kernel
+/-! connection-keyword bodies at a step that its own keywords left closed: PLUG re-specifies every
+connection of the open well P1 as SHUT (COMPDAT only — no handler reports an affected well), STIM
+has two all-default WPIMULT records that both select P1 (the last one counts) -/
+def blocks1 : List (List CKw) :=
+  [[.ops "WELSPECS" [.welspecs "P1" "G1" (some 1) (some 1), .welspecs "P2" "G1" (some 2) (some 2)],
+    .ops "COMPDAT" [.compdat "P1" 0 0 1 2 1, .compdat "P2" 0 0 1 1 1],
+    .ops "WELOPEN" [.welopenW "P*" .open_]],
+   [.actionx "PLUG", .ops "COMPDAT" [.compdat "P1" 1 1 1 2 2], .endactio,
+    .actionx "STIM", .ops "WPIMULT" [.wpimultG "P*" "f", .wpimultG "P1" "g"], .endactio],
+   [.ops "GEFAC" []]]
+def obs1 (s : State) : List (String × Status × List Val) :=
+  s.p.wells.map fun (n, _) => (n, statusOf s.st n, (connsOf s.c.m n).map fun c => (if c.state = 2 then "S" else "O") ++ c.pimult)
+
+-- block 1 leaves its step closed (hypothesis `Closed s1` of `apply_eq_inline_closed_step`) …
+example : ((run k0 (blocks1.take 1)).toOption.bind fun sa => (runKws k0 none (beginBlock (sa.getLastD (init k0)) (blocks1.getD 1 [])) (blocks1.getD 1 [])).toOption.map closedB) = some true := by
+  decide +kernel
+-- … the bodies are plain and do contain connection keywords
+example : ([.ops "COMPDAT" [.compdat "P1" 1 1 1 2 2]] : List CKw).all plainKw = true ∧
+    ([.ops "COMPDAT" [.compdat "P1" 1 1 1 2 2]] : List CKw).all noConnKw = false ∧
+    ([.ops "WPIMULT" [.wpimultG "P*" "f", .wpimultG "P1" "g"]] : List CKw).all noConnKw = false := by decide
+-- STIM then PLUG at step 1: P1 ends SHUT at step 1 and 2 with the LAST factor only, P2 keeps f
+example : ((applySeq k0 blocks1 [(1, "STIM", []), (1, "PLUG", [])]).toOption.map fun r => r.2.map obs1) =
+    some [[("P1", .open_, ["O1", "O1"]), ("P2", .open_, ["O1"])],
+          [("P1", .shut, ["S1", "S1"]), ("P2", .open_, ["Omul(1,f)"])],
+          [("P1", .shut, ["S1", "S1"]), ("P2", .open_, ["Omul(1,f)"])]] := by decide +kernel
+example : ((applySeq k0 blocks1 [(1, "STIM", [])]).toOption.map fun r => r.2.map obs1) =
+    some [[("P1", .open_, ["O1", "O1"]), ("P2", .open_, ["O1"])],
+          [("P1", .open_, ["Omul(1,g)", "Omul(1,g)"]), ("P2", .open_, ["Omul(1,f)"])],
+          [("P1", .open_, ["Omul(1,g)", "Omul(1,g)"]), ("P2", .open_, ["Omul(1,f)"])]] := by decide +kernel
+-- and the inlined decks give the same
+example : ((inlineSeq k0 blocks1 [(1, "STIM", [])]).toOption.bind fun b => (run k0 b).toOption.map fun ss => ss.map obs1) =
+    some [[("P1", .open_, ["O1", "O1"]), ("P2", .open_, ["O1"])],
+          [("P1", .open_, ["Omul(1,g)", "Omul(1,g)"]), ("P2", .open_, ["Omul(1,f)"])],
+          [("P1", .open_, ["Omul(1,g)", "Omul(1,g)"]), ("P2", .open_, ["Omul(1,f)"])]] := by decide +kernel
+example : ((inlineSeq k0 blocks1 [(1, "PLUG", [])]).toOption.bind fun b => (run k0 b).toOption.map fun ss => ss.map obs1) =
+    ((applySeq k0 blocks1 [(1, "PLUG", [])]).toOption.map fun r => r.2.map obs1) ∧
+    ((applySeq k0 blocks1 [(1, "PLUG", [])]).toOption.map fun r => r.2.map fun s => statusOf s.st "P1") = some [.open_, .shut, .shut] := by
+  decide +kernel
+-- the status-change events: opening at step 0, the automatic shut-in of the plugged well at step 1, none at step 2
+example : ((applySeq k0 blocks1 [(1, "PLUG", [])]).toOption.map fun r => r.2.map (·.ev)) = some [["P1", "P2"], ["P1"], []] ∧
+    ((inlineSeq k0 blocks1 [(1, "PLUG", [])]).toOption.bind fun b => (run k0 b).toOption.map fun ss => ss.map (·.ev)) = some [["P1", "P2"], ["P1"], []] := by
+  decide +kernel
+-- `Closed` is not vacuous: a state with a pending factor, or an open well with all connections shut, is not closed
+example : closedB { p := { wells := [] }, c := { g := [("P1", "f")] } } = false := by decide
+example : ((run k0 blocks1).toOption.map fun ss => ss.map closedB) = some [true, true, true] := by decide +kernel
+
 example : sortW ["P1", "I1", "P2"] ["P2", "P1", "X"] = ["P1", "P2"] := by decide
 example : substOp ["P1", "P2"] (.welopenW "?" .shut) = [.welopenW "P1" .shut, .welopenW "P2" .shut] := by decide
 
